@@ -261,7 +261,8 @@ func factsC19() {
 		evs := events(gs)
 		iSet := idx(evs, 0, "assign", `^config\.Valve = u\.valve$`)
 		iMk := idx(evs, 0, "call", `^mux\.MakeSession\(sessionID, config\)$`)
-		perRec = iSet >= 0 && iMk > iSet && count(evs, "call", `MakeSession\(`) == 1
+		perRec = iSet >= 0 && iMk > iSet && count(evs, "call", `MakeSession\(`) == 1 && count(evs, "assign", `^config\.Valve\b.*=`) == 1 &&
+			count(evs, "call", `MakeValve\(`) == 0
 	}
 	gu := fnOf(sv, "userPanel.GetUser")
 	oneValve := false
@@ -278,7 +279,10 @@ func factsC19() {
 		})
 		// an already active record is returned as is (its valve is reused)
 		reuse := g14if(gu, `^user, ok := panel\.activeUsers\[arrUID\]; ok$|^ok$`) != nil
-		oneValve = iAu >= 0 && iMv > iAu && lit && count(evs, "call", `MakeValve\(`) == 1 && reuse
+		// the new record is published in panel.activeUsers (under activeUsersM, held for the whole body)
+		iStore := idx(evs, iMv, "assign", `^panel\.activeUsers\[user\.arrUID\] = user$`)
+		locked := idx(evs, 0, "call", `^panel\.activeUsersM\.Lock\(\)$`) == 0 && idx(evs, 0, "defer", `^panel\.activeUsersM\.Unlock\(\)$`) == 1
+		oneValve = iAu >= 0 && iMv > iAu && lit && count(evs, "call", `MakeValve\(`) == 1 && reuse && iStore > iMv && locked
 	}
 	// nobody else assigns an ActiveUser's valve
 	other := 0
@@ -298,7 +302,7 @@ func factsC19() {
 		})
 	}
 	boolFact(g, "valvePerRecord", perRec && oneValve && other == 0,
-		"GetUser: an active record is reused, a new one gets exactly one mux.MakeValve(upRate, downRate); GetSession: config.Valve = u.valve before mux.MakeSession; no other assignment to .valve in package server")
+		"GetUser (under activeUsersM): an active record is reused, a new one gets exactly one mux.MakeValve(upRate, downRate) and is stored in panel.activeUsers; GetSession: the only assignment to config.Valve is `= u.valve`, before mux.MakeSession; no other assignment to .valve in package server")
 
 	// ----- the limiter library, at the pinned version -----
 	root := g19repoRoot()
